@@ -13,6 +13,16 @@ namespace Parsers
 
 def strIn (xs : List String) (t : Text) : Bool := xs.any fun x => x.toList == t
 
+/-- `is_closed_string`: the source text of a string node has its opening AND its closing quote -/
+def closedString (t : Text) : Bool :=
+  match t with
+  | q :: rest => (q == '"' || q == '\'') && rest.getLast? == some q
+  | [] => false
+
+/-- the YAML / PEP 508 unquoting test: at least two bytes, and the same quote character at both ends -/
+def quotedText (tr : Text) : Bool :=
+  Nat.ble 2 (byteLen tr) && ((startsWith tr ['\''] && endsWith tr ['\'']) || (startsWith tr ['"'] && endsWith tr ['"']))
+
 /-- the value starts with one of the specifier prefixes that do not denote a registry version
     (`NON_REGISTRY_PREFIXES`, regenerated from the source) -/
 def nonRegistry (raw : Text) : Bool := Generated.nonRegistryPrefixes.any fun p => startsWith raw p.toList
@@ -42,6 +52,7 @@ def npmEntry (content : Text) (child : Node) : Option PkgInfo :=
     match child.childByField "key", child.childByField "value" with
     | some k, some v =>
       if v.kind != "string" then none
+      else if !closedString (nodeText content v) then none
       else
         let raw := unquoteDq (nodeText content v)
         if nonRegistry raw then none
@@ -82,6 +93,7 @@ def denoEntry (content : Text) (child : Node) : Option PkgInfo :=
     | none => none
     | some v =>
       if v.kind != "string" then none
+      else if !closedString (nodeText content v) then none
       else
         match Sites.jsrSpecifier (unquoteDq (nodeText content v)) with
         | some (some (n, ver)) => some ⟨n, ver, none, v.sb + 1, v.eb - 1, v.info.sr, v.info.sc + 1, none⟩
@@ -135,7 +147,7 @@ def inlinePairVersion (content : Text) : List Node → Bool → Option VerInfo
   | [], _ => none
   | pc :: rest, isVer =>
     if pc.kind == "bare_key" then inlinePairVersion content rest (nodeText content pc == "version".toList)
-    else if pc.kind == "string" && isVer then some (stringVer content pc)
+    else if pc.kind == "string" && isVer && closedString (nodeText content pc) then some (stringVer content pc)
     else inlinePairVersion content rest isVer
 
 /-- `extract_version_from_inline_table` -/
@@ -158,7 +170,8 @@ def cargoPairStep (content : Text) (st : PairState) (child : Node) : PairState :
     | some (pkg, suf) => { st with dotted := true, name := some pkg, suffix := some suf }
     | none => { st with dotted := true }
   else if child.kind == "string" then
-    if st.dotted then
+    if !closedString (nodeText content child) then st
+    else if st.dotted then
       if st.suffix == some "version".toList then { st with ver := some (stringVer content child) } else st
     else { st with ver := some (stringVer content child) }
   else if child.kind == "inline_table" then { st with ver := cargoInlineVersion content child }
@@ -189,9 +202,7 @@ deriving Repr, DecidableEq
 
 def pyUnquote (t : Text) : Text :=
   let tr := trim t
-  if (startsWith tr ['"'] && endsWith tr ['"']) || (startsWith tr ['\''] && endsWith tr ['\'']) then
-    (slice tr 1 (byteLen tr - 1)).getD []
-  else tr
+  if quotedText tr then (slice tr 1 (byteLen tr - 1)).getD [] else tr
 
 def minPos (inner : Text) (ops : List String) : Nat :=
   ops.foldl (fun acc op => match find? op.toList inner with | some p => if p < acc then p else acc | none => acc) (byteLen inner)
@@ -244,12 +255,18 @@ def pnpmEntry (content : Text) (pair : Node) : Option PkgInfo :=
   match pair.childByField "key", pair.childByField "value" with
   | some k, some v =>
     let name := unquoteBoth (nodeText content k)
-    let tr := trim (nodeText content v)
-    let quoted := (startsWith tr ['\''] && endsWith tr ['\'']) || (startsWith tr ['"'] && endsWith tr ['"'])
+    let raw := nodeText content v
+    let tr := trim raw
+    let quoted := quotedText tr
     let version := if quoted then (slice tr 1 (byteLen tr - 1)).getD [] else tr
+    -- white space the node carries before the value is not part of it
+    let lead := byteLen (raw.takeWhile isWhite)
+    let so := v.sb + lead
+    let eo := so + byteLen tr
+    let col := v.info.sc + lead
     if version.isEmpty then none
-    else if quoted then some ⟨name, version, none, v.sb + 1, v.eb - 1, v.info.sr, v.info.sc + 1, none⟩
-    else some ⟨name, version, none, v.sb, v.eb, v.info.sr, v.info.sc, none⟩
+    else if quoted then some ⟨name, version, none, so + 1, eo - 1, v.info.sr, col + 1, none⟩
+    else some ⟨name, version, none, so, eo, v.info.sr, col, none⟩
   | _, _ => none
 
 mutual
@@ -399,13 +416,15 @@ def goSpec (t : Text) : Option (Text × Text × Text) :=
   if path.isEmpty || ws.isEmpty then none
   else (goVersionTail r2).map fun v => (path, path ++ ws, v)
 
-/-- `^require\s+(\S+)\s+(v[^\s]+)(?:\s*//.*)?$` on the trimmed line -/
-def goSingle (trimmed : Text) : Option (Text × Text) :=
+/-- `^require\s+(\S+)\s+(v[^\s]+)\s*(?://.*)?$` on the trimmed line: (module path, version, byte offset of the
+    version in the trimmed line = `version_match.start()`) -/
+def goSingle (trimmed : Text) : Option (Text × Text × Nat) :=
   match stripPrefix Sites.requireKw trimmed with
   | none => none
   | some r =>
     if (r.takeWhile isWhite).isEmpty then none
-    else (goSpec (r.dropWhile isWhite)).map fun (p, _, v) => (p, v)
+    else (goSpec (r.dropWhile isWhite)).map fun (p, before, v) =>
+      (p, v, byteLen Sites.requireKw + byteLen (r.takeWhile isWhite) + byteLen before)
 
 /-- `^require\s*\(\s*$` -/
 def goBlockStart (trimmed : Text) : Bool :=
@@ -443,9 +462,9 @@ def goLines : List (Text × Nat) → (lineNum : Nat) → (inBlock : Bool) → Li
       | none => goLines rest (n + 1) inBlock
     else
       match goSingle trimmed with
-      | some (path, v) =>
-        let rp := (find? Sites.requireKw line).getD 0
-        let pos := match (Slice.sliceFrom line rp).bind (find? v) with | some p => rp + p | none => 0
+      | some (path, v, posInTrimmed) =>
+        -- the match is on the trimmed line: add the width of the leading white space
+        let pos := byteLen (line.takeWhile isWhite) + posInTrimmed
         ⟨path, v, none, off + pos, off + pos + byteLen v, n, pos, none⟩ :: goLines rest (n + 1) inBlock
       | none => goLines rest (n + 1) inBlock
 
